@@ -437,4 +437,30 @@ theorem rvi_converged_bounds (T Td : (ι → α) → (ι → α)) (hT : MonoShif
     have h2 : vmax (fun i => T V' i - V' i) ≤ vmax (fun j => T V j - V j) := vmax_le (fun i => (hres i).2)
     linarith [b.1, b.2.2]
 
+/-- **relative value iteration stays bounded**: for any reference state `r`, the recursion `v_{n+1} = T v_n − v_n(r)` keeps
+    every component within `sp(v_0 − h)` of `h − h(r) + g`, for every n (no growth with the number of iterations) -/
+theorem rvi_bounded (T : (ι → α) → (ι → α)) (hT : MonoShift T 1) (h : ι → α) (g : α) (hg : ∀ i, T h i = h i + g) (r : ι)
+    (v : Nat → ι → α) (hv : ∀ n i, v (n + 1) i = T (v n) i - v n r) (n : Nat) (i : ι) :
+    |v (n + 1) i - (h i - h r + g)| ≤ sp (fun j => v 0 j - h j) := by
+  have hsp : ∀ n, sp (fun j => v n j - h j) ≤ sp (fun j => v 0 j - h j) := by
+    intro n
+    induction n with
+    | zero => exact le_refl _
+    | succ n ih =>
+      have e : (fun j => v (n + 1) j - h j) = fun j => (T (v n) j - T h j) + (g - v n r) := by
+        funext j; rw [hv, hg]; ring
+      rw [e, sp_add_const]
+      have := sp_T_le T 1 hT (by norm_num) (v n) h
+      rw [one_mul] at this
+      exact le_trans this ih
+  have hmax := T_le_add_max T 1 hT (by norm_num) (v n) h i
+  have hmin := T_ge_add_min T 1 hT (by norm_num) (v n) h i
+  rw [one_mul, hg] at hmax hmin
+  have h1 := le_vmax (fun j => v n j - h j) r
+  have h2 := vmin_le (fun j => v n j - h j) r
+  have hs := hsp n
+  unfold sp at hs ⊢
+  rw [hv, abs_le]
+  constructor <;> linarith
+
 end MdpaxV
